@@ -23,6 +23,25 @@ def greedy_drop(label, F, n_drop):
     return sorted(dropped)
 
 
+def boundary_all_tiebreaks(label, F, d, k):
+    """boundary clause decided for EVERY tie-break of the descending sort: members with a crowding value above the k-th largest
+    are kept for sure, the group tied at the k-th largest value fills the remaining slots in any way"""
+    N, M = F.shape
+    if not (2 * M <= k < N) or np.isnan(d).any():
+        return None
+    v = np.sort(d)[::-1][k - 1]
+    sure = set(np.where(d > v)[0].tolist()); tie = set(np.where(d == v)[0].tolist()); free = k - len(sure)
+    for m in range(M):
+        for what, val in (("minimum", F[:, m].min()), ("maximum", F[:, m].max())):
+            holders = set(np.where(F[:, m] == val)[0].tolist())
+            if holders & sure:
+                continue
+            if len(tie - holders) >= free:
+                return ("C15-boundary: %s: keeping %d of %d members (>= 2 x %d objectives): %d members share the crowding value %r that decides the cut, so a tie-break "
+                        "can drop every holder of the %s of objective %d (holders %s)" % (label, k, N, M, len(tie), float(v), what, m, sorted(holders)))
+    return None
+
+
 class C15(Check):
     ID = "C15"
     IMPORTS = "From PV Require Import Model.Dominance Model.RankCrowd Model.Crowding Model.Fallback Model.Kernels."
@@ -31,7 +50,9 @@ class C15(Check):
             "truncated, every number of members to drop, cf in cd / pcd (2 objectives on the compiled engine) / ce / mnn / 2nn; per-objective min and max of the front before "
             "and after (boundary clause when >= 2*n_obj members are kept); dropped members compared with the reference 'drop the most crowded, recompute, repeat' for the "
             "pruning metrics when that sequence has no ties, and with 'smallest crowding computed once' for cd / ce; the survival itself is compared with the model "
-            "(recorded crowding values and permutation); non-trivial = at least 2 members dropped; distinct by hash")
+            "(recorded crowding values and permutation); for 15% of the fronts (most of them tie-rich, with extremes held by several different points) the crowding vectors "
+            "of all metrics on both engines (worker processes; pcd with 3+ objectives on the pure-Python engine only) are judged for EVERY tie-break of the cut: no holder "
+            "set of a minimum / maximum may be droppable when >= 2*n_obj members are kept; non-trivial = at least 2 members dropped; distinct by hash")
     ASSUMPTIONS = ["the boundary clause is a theorem about any crowding vector that is +inf on a set E with |{inf}| <= kept; that each metric puts +inf on holders of every "
                    "objective's minimum and maximum is established by C13's correspondence and oracle, not proved (partial)",
                    "'pruning one at a time' for the compiled engine relies on the tested (not proved) agreement of the incremental kernels with recomputation from scratch"]
@@ -42,6 +63,21 @@ class C15(Check):
         for _ in range(n):
             F, style = crowd.gen_front(self.rng, max_n=20, objs=(2, 2, 3, 3, 4))
             N = len(F)
+            if self.rng.random() < 0.15:
+                # the crowding vectors of both engines on one front, judged for every tie-break of the cut (quota >= 2 x n_obj);
+                # half of these fronts are tie-rich with extremes held by several different points
+                if self.rng.random() < 0.7:
+                    F, style = crowd.gen_front(self.rng, max_n=20, objs=(3, 3, 4), styles=["tiedfront"])
+                N, M = F.shape
+                if N > 2 * M:
+                    for rep in range(3 if style == "tiedfront" else 1):      # the order of the rows decides which of several tied holders comes first / last
+                        Fp = F[self.rng.sample(range(N), N)] if rep else F
+                        k = 2 * M if self.rng.random() < 0.8 else self.rng.randint(2 * M, N - 1)
+                        for label in crowd.LABELS:
+                            for eng in (["fallback"] if label in ("cd", "ce") or (label == "pcd" and M >= 3) else ["fallback", "compiled"]):
+                                # compiled pcd with 3+ objectives: known finding compiled/pcd/OOB, exercised by C13
+                                yield {"kind": "dvec", "F": enc(Fp), "style": style, "label": label, "engine": eng, "n_remove": N - k}
+                    continue
             cf = self.rng.choice(crowd.LABELS)
             if cf == "pcd" and F.shape[1] >= 3:
                 cf = self.rng.choice(["cd", "ce", "mnn", "2nn"])
@@ -51,9 +87,19 @@ class C15(Check):
                    "seed": self.rng.randrange(2 ** 31)}
 
     def run(self, case):
+        if case.get("kind") == "dvec":
+            from harness.c13 import run_metric
+            return run_metric(case)
         return surv.run_survival(case)
 
     def oracle(self, case, obs):
+        if case.get("kind") == "dvec":
+            if obs.get("crash") or obs.get("d") is None:
+                return "C15-crash: %s engine, metric %s: the process died" % (case["engine"], case["label"])
+            F = decarr(case["F"], 2); d = np.array([float.fromhex(h) for h in obs["d"]])
+            if len(d) != len(F) or len(np.unique(F, axis=0)) < len(F) or not crowd.nondominated(F):
+                return None
+            return boundary_all_tiebreaks("%s (%s engine)" % (case["label"], case["engine"]), F, d, len(F) - case["n_remove"])
         m = surv.oracle_c03(case, obs)
         if m:
             return m
@@ -88,6 +134,17 @@ class C15(Check):
 
     def coq(self, case, obs):
         """the truncation with recorded oracle answers AND every crowding vector it used against the metric models"""
+        if case.get("kind") == "dvec":
+            logs = [(float.fromhex(a), float.fromhex(b)) for a, b in obs["logs"]]
+            exp = None if obs.get("d") is None else np.array([float.fromhex(h) for h in obs["d"]])
+            t = crowd.metric_term(case["label"], decarr(case["F"], 2), case["n_remove"], exp, logs=logs, argpart=obs.get("argpart"), engine=case["engine"])
+            if case["label"] == "pcd" and case["engine"] == "fallback" and not isinstance(t, tuple):
+                # model verdict for the known finding pcd/tied-max-extra-infinite: more than 2 x n_obj values of the MODEL are +inf
+                crowd._UID += 1
+                v = "pd%d" % crowd._UID; F = decarr(case["F"], 2)
+                pre = "Definition %s := Eval vm_compute in (fallback_pcd (X:=Fx) %s (%d)%%Z)." % (v, cfmat(F), case["n_remove"])
+                return pre, t, {"extra_inf": "(%d <? length (filter (fun x => PrimFloat.eqb x (pinf Fx)) %s))%%nat" % (2 * F.shape[1], v)}
+            return t
         main = surv.survival_term(case, obs)
         pre, parts, aux = [], [main], {}
         for cc in obs.get("crowd_calls", []):
@@ -110,6 +167,12 @@ class C15(Check):
 
     def known(self, case, obs, msg):
         a = getattr(self, "aux", {}).get(getattr(self, "cur", None), {})
+        if case.get("kind") == "dvec":
+            if case["engine"] == "compiled" and case["label"] == "pcd" and a.get("oob"):
+                return "compiled/pcd/OOB"
+            if case["label"] == "pcd" and msg.startswith("C15-boundary") and a.get("extra_inf"):
+                return "pcd/tied-max-extra-infinite"
+            return None
         if msg == "correspondence" and a.get("oob") and case["cf"] == "pcd":
             return "compiled/pcd/OOB"
         # the duplicated-neighbour defect of the compiled mnn kernel changes the drop order: only if the kernel model confirms it
@@ -128,9 +191,13 @@ class C15(Check):
         return None
 
     def nontrivial(self, case, obs):
+        if case.get("kind") == "dvec":
+            return case["n_remove"] >= 2
         return len(case["F"]) - case["n_survive"] >= 2
 
     def classes(self, case, obs):
+        if case.get("kind") == "dvec":
+            return [case["label"], case["style"], "obj=%d" % len(case["F"][0]), "crowding-vector-" + case["engine"], "boundary-clause"]
         return [case["cf"], case["style"], "obj=%d" % len(case["F"][0])] + (["boundary-clause"] if case["n_survive"] >= 2 * len(case["F"][0]) else [])
 
 
